@@ -1721,14 +1721,41 @@ class SymSet:
         raise Unsupported("hash(SymSet)")
 
     def __eq__(self, o):
-        raise Unsupported("set equality on symbolic sets (use the harness helper)")
+        if isinstance(o, (SymSet, set, frozenset)):
+            return set_eq(self, o)
+        return False
 
     def __repr__(self):
         return "SymSet(%d guarded)" % len(self.members)
 
 
+def _set_members(x):
+    if isinstance(x, SymSet):
+        return list(x.members)
+    return [(True, e) for e in x]
+
+
+def set_eq(a, b):
+    """equality of two (symbolic) sets: mutual inclusion"""
+    ma, mb = _set_members(a), _set_members(b)
+    conds = []
+    for (g, e) in ma:
+        conds.append(b_implies(g, b_or(*[b_and(h, sym_eq(e, f)) for h, f in mb])))
+    for (h, f) in mb:
+        conds.append(b_implies(h, b_or(*[b_and(g, sym_eq(e, f)) for g, e in ma])))
+    return b_and(*conds)
+
+
 def sym_eq(a, b):
     """generic (possibly symbolic) equality -> SymBool|bool"""
+    if isinstance(a, SymSet) or isinstance(b, SymSet):
+        if isinstance(a, (SymSet, set, frozenset)) and isinstance(b, (SymSet, set, frozenset)):
+            return set_eq(a, b)
+        return False
+    if isinstance(a, tuple) and isinstance(b, tuple):
+        if len(a) != len(b):
+            return False
+        return b_and(*[sym_eq(x, y) for x, y in zip(a, b)])
     for x, y in ((a, b), (b, a)):
         if isinstance(x, (SymSeq, SymInt, Opaque, SymChoice, SymBool)):
             r = x.__eq__(y)
